@@ -389,6 +389,12 @@ class SpecialValueCanonicalization(ComparisonExpressionTransformer):
     in constant values.
     """
     def transform_comparison(self, ast):
+        if ast.operator == "MATCHES":
+            # The constant is a regular expression, not a value: lower-casing
+            # it or replacing it by a canonical address changes what it
+            # matches (\\D vs \\d; '10.0.0.1/8' vs '10.0.0.0/8').
+            return ast, False
+
         if ast.lhs.object_type_name == "windows-registry-key":
             windows_reg_key(ast)
 
